@@ -63,7 +63,7 @@ EDITS = {
          "            self.tbl[\"omega\"][mask] = self.tbl[\"omega\"][mask] + np.pi * u.rad\n            self.tbl[\"omega\"][mask] = self.tbl[\"omega\"][mask] % (2 * np.pi * u.rad)\n",
          "            half_turn = np.pi * u.rad\n            self.tbl[\"omega\"][mask] = half_turn + self.tbl[\"omega\"][mask]\n            self.tbl[\"omega\"][mask] = self.tbl[\"omega\"][mask] % (2 * half_turn)\n"),
     ]),
-    "kernel-chi2-commute": (["C01", "C03", "C05"], [
+    "kernel-chi2-commute": (["C01", "C03", "C05", "C02"], [
         ("thejoker/src/fast_likelihood.pyx",
          "                chi2 += ((self.b[m] - self.rv[m])\n                         * self.Binv[n, m]\n                         * (self.b[n] - self.rv[n]))\n",
          "                chi2 += (self.Binv[n, m]\n                         * (self.b[m] - self.rv[m])\n                         * (self.b[n] - self.rv[n]))\n"),
